@@ -14,9 +14,8 @@ Open Scope Z_scope.
    loop.switch / start() operations, any clock readings, any frame scripts
    issued from any processor position by a processor, an event callback or a
    coroutine, any one-shot reactions of the load-time / switch-time / quit
-   callbacks) that contains no switch request made by a callback while the
-   loop is carrying out a switch (known finding K10, which leaves the current
-   world muted), and whose observed logs the model of desper/loop.py accepts,
+   callbacks, including switch requests made while the loop is entering a
+   world) whose observed logs the model of desper/loop.py accepts,
    every start() satisfies the checker of Loop/R14Model.v:
    - the first iteration after each start gets dt = 0, every later one exactly
      (this reading - previous reading of the time function), also when the
@@ -74,10 +73,12 @@ Example C14_nonvacuous :
   wf_b ex_ok = true /\ known14_b ex_ok = false /\ accepts ex_ok = true /\ holds14_b ex_ok = true.
 Proof. vm_compute. auto. Qed.
 
-(* known finding K10 (see Props/C13.v): on_switch_in calls switch(): start()
-   dies with SwitchWorld and the current world (2) has muted itself; at the
-   next start quit_loop's on_quit is held instead of delivered *)
-Definition k10_witness : C14_case :=
+(* the former known findings K10 / K11 (repaired in /repo by ce4190f):
+   on_switch_in of world 2 calls switch(handle 2): the loop goes on to world 3
+   without touching the clock (dt = 8 at the next iteration); at the next
+   start quit_loop's on_quit is delivered to the current world before the
+   loop quits *)
+Definition chain_case : C14_case :=
   {| c_nps := [1%nat; 1%nat; 1%nat];
      c_ops :=
        [ top0;
@@ -86,13 +87,21 @@ Definition k10_witness : C14_case :=
           [EClock 0 1 0; EProc 1 0%nat 0; EAct OProc (ASwitch 1 false false true) 1 0;
            ELoad 1 2; EEv 1 (VOut 1 2); EEv 2 (VLoad 1 2); EEv 2 (VIn 1 2);
            EAct (OCallback KIn true) (ASwitch 2 false false false) 2 1;
-           ELoad 2 3; EEv 2 (VOut 2 3); EEnd RaisedSwitch 2 1]);
+           ELoad 2 3; EEv 2 (VOut 2 3); EEv 3 (VLoad 2 3); EEv 3 (VIn 2 3);
+           EClock 8 3 2; EProc 3 0%nat 8; EClockEnd EndQuit 3 2; EEnd (Returned false) 3 2]);
          (OStart [fr 16 (AQuitLoop QDefault)] EndQuit [],
-          [EClock 16 2 1; EProc 2 0%nat 0; EAct OProc (AQuitLoop QDefault) 2 1;
-           EEnd (Returned false) 2 1]) ] |}.
-Theorem C14_switch_from_switch_in_refuted :
-  exists c, wf_b c = true /\ known14_b c = true /\ accepts c = true /\ holds14_b c = false.
-Proof. exists k10_witness. vm_compute. auto. Qed.
+          [EClock 16 3 2; EProc 3 0%nat 0; EAct OProc (AQuitLoop QDefault) 3 2; EEv 3 VQuit;
+           EEnd (Returned false) 3 2]) ] |}.
+Example C14_switch_chain_holds :
+  wf_b chain_case = true /\ known14_b chain_case = false /\ accepts chain_case = true /\
+  holds14_b chain_case = true.
+Proof. vm_compute. auto. Qed.
+(* what the unrepaired loop did: on_quit held by the muted current world *)
+Example C14_on_quit_held_rejected :
+  start14 [1%nat; 1%nat; 1%nat]
+    [EClock 16 2 1; EProc 2 0%nat 0; EAct OProc (AQuitLoop QDefault) 2 1;
+     EEnd (Returned false) 2 1] = false.
+Proof. vm_compute. reflexivity. Qed.
 
 (* logs that violate the property are rejected by the checker: a stale
    timestamp after a start that ended by an exception (first dt = 16) ... *)
